@@ -14,25 +14,37 @@ THEOREMS = [
     'Ndn.C20.location_existing_as_given', 'Ndn.C20.location_relative_to_conf', 'Ndn.C20.location_fallback',
     'Ndn.C20.face_of_uri', 'Ndn.C20.face_of_unix_uri', 'Ndn.C20.unknown_scheme_error',
     'Ndn.C20.unknown_scheme_uri_error', 'Ndn.C20.platform_table_sane', 'Ndn.C20.precedence_on_platform',
+    'Ndn.C20.conf_value_is_first_assignment', 'Ndn.C20.conf_errors',
 ]
 PARTIAL = {}
 TRUSTED = [
     'C20: the file system is a predicate on the literal strings passed to os.path.exists, fixed during one call; '
     'os.path.expandvars is the identity (candidate paths contain no $)',
-    'C20: configparser is modelled on the grammar subset comment/blank/`key = value` lines (no sections, no '
-    'continuation lines, no value-less lines); a repeated option raises',
+    'C20: configparser is modelled (parseConf) as ConfigParser(interpolation=None).read_string("[DEFAULT]\\n" + text) on '
+    'ASCII text: full-line #/; comments, blank lines, section headers, = and : delimiters, continuation lines, '
+    'lower-cased option names, strict duplicate detection, ParsingError for lines that are neither; the split of the '
+    'text into physical lines (universal newlines of open(), str.splitlines-free iteration of StringIO) and '
+    'non-ASCII text (Unicode whitespace, str.lower) are CPython',
     'C20: urllib.parse.urlsplit is modelled on printable ASCII without whitespace; validity of a bracketed IPv6 / '
     'IPvFuture literal (urllib.parse._check_bracketed_host -> ipaddress) enters the model as a boolean',
     'C20: posixpath.join / dirname as modelled (correspondence runs the real ones)',
 ]
 RULE = ('three streams: (conf) product of presence/absence and values of NDN_CLIENT_TRANSPORT/PIB/TPM x 0..3 existing '
-        'candidate files (comments, blank lines, missing keys, upper-case keys, = and : delimiters, rarely a repeated key) '
+        'candidate files (comments, blank lines, missing keys, upper-case keys, = and : delimiters, rarely a repeated key; '
+        'one file in five has further shapes of the INI grammar: indented comments, whitespace-only lines, values continued '
+        'on indented lines with blank/comment lines in between, empty values, ; and # inside values, names with inner '
+        'blanks, [section] headers that hide their options, a second [DEFAULT], an indented first line, tabs; and a '
+        'malformed share: lines without delimiter, empty names, options repeated case-insensitively or only across '
+        'sections, repeated sections, [] and unclosed headers) '
         'x store values scheme / scheme:loc / scheme:loc:extra with loc absolute or relative, existing as given, existing '
         'relative to the configuration file, or missing, with and without an existing platform default location and with '
         'both NFD socket paths present/absent; (face) URIs scheme://[user@]host[:port][/path] over all supported schemes in '
         'mixed case, unsupported schemes, names / IPv4 / bracketed IPv6 (valid, invalid, unbalanced), ports absent, empty, '
         '0, 1..65535, 65536+, zero-padded, non-numeric, unix URIs with 0-3 slashes, query, fragment, plus random ASCII '
-        'strings; (kc) pib/tpm strings with supported, off-platform and unknown schemes, with and without colon. '
+        'strings; (kc) pib/tpm strings with supported, off-platform and unknown schemes, with and without colon; (parse) '
+        'the configuration-file reader alone: texts of 0-9 lines drawn from the shapes above and from random strings over '
+        '" \\t=:#;[]aAbk%\\x0c", LF/CRLF/CR, with and without final newline - the model must return the same DEFAULT dict '
+        '(names, values, order) or the same exception class as ConfigParser(interpolation=None).read_string. '
         'targeted streams: empty-string environment variables, no / only a later / every candidate file, a first file lacking a '
         'key a later one has, values containing = # ; :, CRLF and unterminated files, unix://<absolute path> URIs, all '
         'scheme x host x port corners; the platform defaults themselves are judged against the documented Linux table. '
@@ -248,6 +260,60 @@ def _file_lines(rng, plat):
     return lines
 
 
+FANCY_VALUES = ['tcp://h:1 ; not a comment', 'unix:///tmp/x #y', 'pib-sqlite3:/data/a b', 'tpm-file:/k\tz', 'x', '', 'a=b:c',
+                '[v]', 'pib-sqlite3:keys', 'tpm-file:sub/pib']
+
+
+def _fancy_lines(rng, plat, malformed):
+    """further shapes of the INI grammar as raw physical lines ['raw', text]; with `malformed` one defect is put in"""
+    out = []
+
+    def kv(k, v, ind=''):
+        d = rng.choice(['=', ' = ', ': ', ':', '\t=\t', ' =', '= '])
+        return ['raw', ind + k + d + v + rng.choice(['', '', ' ', '\t'])]
+    keys = [k for k in ENVKEYS if rng.random() < 0.7]
+    rng.shuffle(keys)
+    ind0 = rng.choice(['', '', '', ' ', '  '])                       # an indented first line is an ordinary option
+    for k in keys:
+        r = rng.random()
+        if r < 0.25:
+            out.append(['raw', rng.choice(['  # indented comment', '\t; x = y', '   ', '\t', '#', ';'])])
+        kk = rng.choice([k, k, k.upper(), k.capitalize()])
+        v = _value(rng, k, plat) if rng.random() < 0.6 else rng.choice(FANCY_VALUES)
+        out.append(kv(kk, v, ind0))
+        r = rng.random()
+        if r < 0.35:                                                 # continuation lines
+            for _ in range(rng.randint(1, 3)):
+                out.append(['raw', ind0 + rng.choice([' ', '  ', '\t', '    ']) +
+                            rng.choice(['more', 'k = v', '[x]', '# kept? no: a comment', '', 'a:b', '; c'])])
+        elif r < 0.45:
+            out.append(['raw', ''])
+    r = rng.random()
+    if r < 0.35:                                                     # a section hides its options
+        out.append(['raw', rng.choice(['[extra]', ' [extra] ', '[a]b] tail', '[default]', '[DEFAULT ]'])])
+        for k in rng.sample(ENVKEYS, rng.randint(0, 3)):
+            out.append(kv(k, _value(rng, k, plat)))
+        if rng.random() < 0.4:
+            out.append(['raw', '[DEFAULT]'])
+            missing = [k for k in ENVKEYS if k not in keys]
+            for k in missing[:rng.randint(0, 2)]:
+                out.append(kv(k, _value(rng, k, plat)))
+            out.append(kv('other key', 'x'))
+    elif r < 0.5:
+        out.append(kv(rng.choice(['my key', 'a.b', 'x[1]', '#not first? no', 'k;']), rng.choice(FANCY_VALUES)))
+    if malformed:
+        bad = rng.choice([
+            [['raw', 'transport']], [['raw', 'no delimiter here']], [['raw', '= v']], [['raw', ' : v']], [['raw', '[]']],
+            [['raw', '[unclosed']], [['raw', '[s]'], ['raw', '[s]']], [['raw', '[s]'], ['raw', 'a=1'], ['raw', 'A:2']],
+            [['raw', 'zz=1'], ['raw', 'ZZ = 2']], [['raw', '[s]'], ['raw', 'q=1'], ['raw', '[t]'], ['raw', 'q=1']],
+            [['raw', '[s]'], ['raw', 'pib=1'], ['raw', '[DEFAULT]'], ['raw', 'r=1'], ['raw', '[DEFAULT]'], ['raw', 'R=2']],
+            [['raw', 'stray'], ['raw', '   continues nothing? it continues the previous option']],
+        ])
+        at = rng.randint(0, len(out))
+        out[at:at] = bad
+    return out
+
+
 def render(lines, eol='\n', final=True):
     out = []
     for l in lines:
@@ -255,6 +321,8 @@ def render(lines, eol='\n', final=True):
             out.append(l[1])
         elif l[0] == 'b':
             out.append('')
+        elif l[0] == 'raw':
+            out.append(l[1])
         else:
             _, k, v, style = l
             out.append([f'{k}={v}', f'{k} = {v}', f'{k}: {v}', f'{k}  =  {v}  '][style % 4])
@@ -268,7 +336,8 @@ def _conf_case(rng):
     files = []
     for p in plat['conf_paths']:
         if rng.random() < 0.35:
-            files.append([p, _file_lines(rng, plat)])
+            r = rng.random()
+            files.append([p, _file_lines(rng, plat) if r < 0.8 else _fancy_lines(rng, plat, malformed=r > 0.95)])
     if rng.random() < 0.5:
         rng.shuffle(files)
     # everything that could be asked about
@@ -276,6 +345,9 @@ def _conf_case(rng):
     vals = [v for v in env.values() if v is not None]
     for _, ls in files:
         vals += [l[2] for l in ls if l[0] == 'kv']
+        if any(l[0] == 'raw' for l in ls):
+            got = _real_defaults(render(ls))          # (only to know which store locations the case could ask about)
+            vals += [v for k, v in (got if isinstance(got, list) else []) if k in ENVKEYS]
     for v in vals:
         sp = v.split(':')
         if len(sp) == 2 and sp[1]:
@@ -402,7 +474,115 @@ def _kc_case(rng):
     return {'op': 'kc', 'pib': pib, 'tpm': tpm}
 
 
+def _real_defaults(text):
+    """what the library's reader makes of a file: [[name, value], ...] of parser['DEFAULT'], or the exception class"""
+    from configparser import ConfigParser
+    parser = ConfigParser(interpolation=None)
+    try:
+        parser.read_string('[DEFAULT]\n' + text)
+        return [[k, v] for k, v in parser['DEFAULT'].items()]
+    except Exception as e:     # noqa
+        return type(e).__name__
+
+
+def _library_defaults(text):
+    """the DEFAULT section as read_client_conf's own reader call sees a configuration file with this content: the
+    function runs under the virtual os/open with the text as the user's client.conf, and the parser object it creates is
+    looked at afterwards.  [[name, value], ...] or the class name of the configparser exception"""
+    import configparser
+    made = []
+
+    class Recording(configparser.ConfigParser):
+        def __init__(self, *a, **k):
+            super().__init__(*a, **k)
+            made.append(self)
+    home = '/home/u'
+    with Virt(home, [], {home + '/.ndn/client.conf': text}, {}) as v:
+        old = v.cc.ConfigParser
+        v.cc.ConfigParser = Recording
+        try:
+            v.cc.read_client_conf()
+        except configparser.Error as e:
+            return type(e).__name__
+        except Exception:     # noqa  (a later step, e.g. a store value with two colons: the file was read)
+            pass
+        finally:
+            v.cc.ConfigParser = old
+    if len(made) != 1:
+        return 'reader-not-used-once'
+    return [[k, val] for k, val in made[0]['DEFAULT'].items()]
+
+
+SOUP = ' \t=:#;[]aAbk%\x0c'
+LINE_SHAPES = ['a=1', 'A = 2', 'b: x y', 'b=', 'k', '# c', ' ; c', '', '  ', '\t', '[s]', '[t]', '[DEFAULT]', ' [s] ', '[]', '[x',
+               '  a=3', '   cont', ' more', '\tk = v', '=v', ' : ', 'a b = c d', 'k%=%(x)s', 'transport = unix:///a',
+               'pib=pib-sqlite3:/x', '    tpm : tpm-file:', 'a=1 ; x', 'a;b=1', '#a=1', '[a]b]c', 'x]=1', '[=]', '[:]', 'b\x0c= 1\x0c']
+
+
+def _valid_text_lines(rng):
+    """a text the reader accepts: options with names unique per section (case-insensitively), values, comments, blank
+    lines, continuation lines deeper than their option, section headers with unique names, DEFAULT re-opened"""
+    lines, used, sect, sects = [], {'DEFAULT': set()}, 'DEFAULT', {'DEFAULT'}
+    pool = ['transport', 'pib', 'tpm', 'a', 'b', 'my key', 'K', 'x.y', 'a%b', 'k[0]', 'q;r', 'z#']
+    ind = rng.choice(['', '', '', ' ', '\t'])
+    for _ in range(rng.choice([0, 1, 2, 3, 4, 6, 8])):
+        r = rng.random()
+        if r < 0.15:
+            lines.append(rng.choice(['# c', ';c', '  # c = d', '\t;', '#[s]', '; a=1']))
+        elif r < 0.27:
+            lines.append(rng.choice(['', '', ' ', '\t ', '\x0c']))
+        elif r < 0.37:
+            nm = rng.choice(['s', 't', 'extra', 'default', 'a]b', 'DEFAULT', 'DEFAULT', ' s'])
+            if nm == 'DEFAULT' or nm not in sects:
+                sects.add(nm)
+                sect = nm
+                used.setdefault(nm, set())
+                ind = rng.choice(['', '', ' '])
+                lines.append(ind + '[' + nm + ']' + rng.choice(['', '', ' ', ' tail', ']']) if nm != 'DEFAULT' or rng.random() < 0.8
+                             else ind + '[DEFAULT]')
+                if lines[-1].rstrip().endswith(']]') or ' tail' in lines[-1]:
+                    pass
+        else:
+            free = [k for k in pool if k.lower() not in used[sect]]
+            if not free:
+                continue
+            k = rng.choice(free)
+            used[sect].add(k.lower())
+            kk = rng.choice([k, k, k.upper(), k.capitalize()])
+            v = rng.choice(['1', 'x y', '', 'unix:///a', 'pib-sqlite3:/p q', 'a=b', 'a:b', 'v ; c', 'v #c', '[v]', '%(x)s', '  '])
+            lines.append(ind + kk + rng.choice(['=', ' = ', ':', ' : ', '\t=', '=\t', '  =  ']) + v + rng.choice(['', '', ' ', '\t']))
+            while rng.random() < 0.3:
+                lines.append(rng.choice([ind + ' ', ind + '  ', ind + '\t', ind + '     ']) +
+                             rng.choice(['more', 'k = v', '[s]', '', '# c', 'x:y', '=', 'stray']))
+    return lines
+
+
+def _parse_case(rng):
+    if rng.random() < 0.7:
+        lines = _valid_text_lines(rng)
+    else:
+        lines = []
+        for _ in range(rng.choice([0, 1, 2, 3, 3, 4, 5, 6, 9])):
+            if rng.random() < 0.7:
+                lines.append(rng.choice(LINE_SHAPES))
+            else:
+                lines.append(''.join(rng.choice(SOUP) for _ in range(rng.randint(0, 7))))
+    eol = rng.choice(['\n', '\n', '\n', '\r\n', '\r'])
+    return {'op': 'parse', 'text': eol.join(lines) + (eol if lines and rng.random() < 0.8 else '')}
+
+
+def _targeted_parse():
+    for t in ['', '\n', 'a=1', 'a=1\nA=2\n', 'a=1\n b\n\n c\n', '[s]\n[s]\n', 'k\n', '=v\n', '[s]\na=1\n[DEFAULT]\na=2\n',
+              'a=1\n[s]\na=2\n[DEFAULT]\na=3\n', ' a=1\nb=2\n  c=3\n', 'a=1\nstray\n  x\n', 'a=\n  v\n', '[s]\n  a=1\n',
+              'a=1\n#c\n  x\n', 'a=1\n  #c\n  x\n', 'a: b = c\n', 'a = b : c\n', 'A B  =  c  \n', '[]\n', '[ ]\n', '[x]y=1\n',
+              'a=1\r\n  b\r\n', '=\n=\n', 'k\nk\n', 'a=1\n\n\n', '\n\na=1', 'a=1\n\t\n x\n']:
+        yield {'op': 'parse', 'text': t}
+
+
 def cases(rng, tier):
+    yield from _targeted_parse()
+    for i in range(3000 if tier == 'quick' else 60000):
+        yield _parse_case(rng)
     yield from _targeted_conf()
     yield from _targeted_face()
     n = 2500 if tier == 'quick' else 60000
@@ -432,6 +612,14 @@ def shrink(case):
         u = case['uri']
         for i in range(len(u)):
             yield {'op': 'face', 'uri': u[:i] + u[i + 1:], 'gen': 'shrunk'}
+    elif case['op'] == 'parse':
+        ls = case['text'].split('\n')
+        for i in range(len(ls)):
+            yield {'op': 'parse', 'text': '\n'.join(ls[:i] + ls[i + 1:])}
+        t = case['text']
+        for i in range(len(t)):
+            if t[i] != '\n':
+                yield {'op': 'parse', 'text': t[:i] + t[i + 1:]}
 
 
 # ------------------------------------------------------------------------------ implementation
@@ -473,6 +661,9 @@ def run_impl(case):
             except Exception as e:     # noqa
                 res, raised = None, _exc(e)
         return {'op': 'conf', 'result': res, 'raised': raised, 'platform': plat}
+    if case['op'] == 'parse':
+        got = _library_defaults(case['text'])
+        return {'op': 'parse', 'got': got, 'raised': got if isinstance(got, str) else None}
     if case['op'] == 'face':
         import ndn.client_conf as cc
         try:
@@ -511,6 +702,21 @@ def _hx(s):
     return s.encode().hex() if s else '-'
 
 
+def _hxa(s):
+    """any ASCII text (configuration lines and the values read from them may hold blanks, tabs, newlines)"""
+    assert all(ord(c) < 128 for c in s), s
+    return s.encode().hex() if s else '-'
+
+
+def _phys_lines(text):
+    """the physical lines the reader iterates over, without terminators (text after universal-newline translation)"""
+    text = text.replace('\r\n', '\n').replace('\r', '\n')
+    ls = text.split('\n')
+    if ls and ls[-1] == '':
+        ls.pop()
+    return ls
+
+
 def _unhx(h):
     return '' if h == '-' else bytes.fromhex(h).decode()
 
@@ -521,23 +727,24 @@ def _in_grammar(s):
 
 def model_line(case, impl):
     if case['op'] == 'conf':
-        vals = [v for v in case['env'].values() if v is not None]
-        for _, ls in case['files']:
-            for l in ls:
-                if l[0] == 'kv':
-                    vals += [l[1], l[2]]
-                    if not l[1] or l[2] != l[2].strip() or any(c in l[1] for c in '=:[] '):
-                        return None
+        texts = [_render_case(case, ls) for _, ls in case['files']]
+        vals = [v for v in case['env'].values() if v is not None] + texts + list(case['exists'])
         # configuration values are literal text, % included (fixed in /repo: ConfigParser(interpolation=None))
-        if not all(_in_grammar(v.replace('%', 'p')) for v in vals):
+        if not all(ord(c) < 128 for v in vals for c in v):
             return None
         fs = []
-        for p, ls in case['files']:
-            fs.append(_hx(p) + '>' + ('|'.join('o' if l[0] != 'kv' else _hx(l[1]) + '=' + _hx(l[2]) for l in ls) if ls else '_'))
+        for (p, _), text in zip(case['files'], texts):
+            pl = _phys_lines(text)
+            fs.append(_hx(p) + '>' + ('|'.join(_hxa(l) for l in pl) if pl else '_'))
         ex = sorted(set(case['exists']) | {p for p, _ in case['files']})
-        env = [('~' if case['env'][k] is None else _hx(case['env'][k])) for k in ENVKEYS]
-        return ' '.join(['C20 conf', _hx(case['home']), ','.join(_hx(e) for e in ex) if ex else '.',
+        env = [('~' if case['env'][k] is None else _hxa(case['env'][k])) for k in ENVKEYS]
+        return ' '.join(['C20 conf', _hx(case['home']), ','.join(_hxa(e) for e in ex) if ex else '.',
                          ';'.join(fs) if fs else '.'] + env)
+    if case['op'] == 'parse':
+        if not all(ord(c) < 128 for c in case['text']):
+            return None
+        pl = _phys_lines(case['text'])
+        return 'C20 parse ' + ('|'.join(_hxa(l) for l in pl) if pl else '_')
     if case['op'] == 'face':
         if not _in_grammar(case['uri']):
             return None
@@ -548,6 +755,11 @@ def model_line(case, impl):
 
 def model_obs(answer, case, impl):
     t = answer.split()
+    if case['op'] == 'parse':
+        if t[0] == 'err':
+            return ['err', t[1]]
+        assert t[0] == 'ok', answer
+        return ['ok', [] if t[1] == '_' else [[_unhx(x) for x in kv.split('=')] for kv in t[1].split('|')]]
     if t[0] == 'err':
         return ['err', 'ValueError' if t[1] == 'ValueError' else 'Other']
     assert t[0] == 'ok', answer
@@ -561,6 +773,8 @@ def model_obs(answer, case, impl):
 
 
 def impl_obs(impl):
+    if impl['op'] == 'parse':
+        return ['err', impl['got']] if isinstance(impl['got'], str) else ['ok', impl['got']]
     if impl['raised']:
         return ['err', 'ValueError' if impl['raised'] == 'ValueError' else 'Other']
     if impl['op'] == 'conf':
@@ -577,6 +791,10 @@ def _first_file_value(case, plat, key):
     present = set(case['exists']) | set(files)
     for p in plat['conf_paths']:
         if p in present:
+            if any(l[0] == 'raw' for l in files.get(p, [])):
+                # further shapes of the INI grammar (sections, continuation lines, ...): what "the value in the file" is
+                # is left to the reader model (correspondence); the statement is not evaluated on such a file
+                return p, None, False
             ls = [l for l in files.get(p, []) if l[0] == 'kv']
             keys = [l[1].lower() for l in ls]
             if len(set(keys)) != len(keys):
@@ -702,6 +920,8 @@ def oracle(case, impl):
 def nontrivial(case, impl):
     if impl['raised']:
         return False
+    if case['op'] == 'parse':
+        return len(impl['got']) > 0
     if case['op'] == 'conf':
         return any(v is not None for v in case['env'].values()) or any(p in impl['platform']['conf_paths'] for p, _ in case['files'])
     return True
@@ -714,6 +934,8 @@ def tags(case, impl):
         present = set(case['exists']) | {p for p, _ in case['files']}
         t.append('env:' + ''.join(k[0] if case['env'][k] is not None else '-' for k in ENVKEYS))
         t.append('files-existing:%d' % sum(1 for p in plat['conf_paths'] if p in present))
+        if any(l[0] == 'raw' for _, ls in case['files'] for l in ls):
+            t.append('conf:further-ini-shapes')
         t.append('default-transport:' + plat['default_transport'])
         if impl['result']:
             for k in ('pib', 'tpm'):
@@ -727,6 +949,11 @@ def tags(case, impl):
                                                        'default' if got in plat[k + '_paths'] and got in present else
                                                        'relative' if got in present else 'nothing-exists')
                 t.append(f'{k}:{src}:{how}')
+    elif case['op'] == 'parse':
+        if not impl['raised']:
+            t.append('parse-keys:%d' % min(len(impl['got']), 3))
+            if any('\n' in v for _, v in impl['got']):
+                t.append('parse:multi-line-value')
     elif case['op'] == 'face':
         t.append('gen:' + case.get('gen', '?'))
         if impl['face']:
